@@ -50,7 +50,8 @@ class Sim:
         self.log = []             # (exe, tuple(args), input)
         self.ncmd = 0
         self.fault_at = None      # the k-th command (1-based) ...
-        self.fault_kind = 0       # 0 non-zero exit, 1 'error:' on stderr with exit 0, 2 garbage on stdout
+        self.fault_kind = 0       # 0 non-zero exit, 1 'error:' on stderr with exit 0, 2 garbage on stdout, 3 correct answer that arrives late
+        self.answer_is_late = False
         self.fault_only = None    # restrict fault counting to these executables
         self.foreign = []         # [(id, code)] jobs of other users in the live queue
         self.multi_cluster = False
@@ -81,6 +82,10 @@ class Sim:
             if self.fault_at is not None and self.ncmd == self.fault_at:
                 if self.fault_kind == 0:
                     return 1, "", exe + ": failed (injected, exit status 1)\n"
+                if self.fault_kind == 3:
+                    # the command is carried out, but its answer arrives late (a busy controller): whoever waits long enough gets it
+                    self.answer_is_late = True
+                    return getattr(self, "cmd_" + exe)(args, inp)
                 if self.fault_kind == 1:
                     # (scancel --verbose announces the job before it reports that the request failed)
                     return 0, "", ("scancel: Terminating job %s\n" % args[-1] if exe == "scancel" else "") + exe + ": error: injected failure\n"
@@ -282,8 +287,15 @@ class FakePopen:
         self.kw = kw
 
     def communicate(self, input=None, timeout=None):
+        if getattr(self, "_killed", False):
+            self.returncode = -9
+            return "", ""
         exe = os.path.basename(self.argv[0])
+        SIM.answer_is_late = False
         rc, out, err = SIM.run(exe, self.argv[1:], input)
+        if SIM.answer_is_late and timeout is not None:
+            SIM.answer_is_late = False
+            raise subprocess.TimeoutExpired(self.argv, timeout)      # the caller gave up waiting; the scheduler has acted all the same
         self.returncode = rc
         return out, err
 
@@ -294,7 +306,10 @@ class FakePopen:
         return self.returncode
 
     def kill(self):
-        pass
+        self._killed = True
+
+    def terminate(self):
+        self._killed = True
 
     def __enter__(self):
         return self
